@@ -225,15 +225,16 @@ void run_barrier(const Workload& w, Result& res, const char* name) {
         for (int g = 0; g < G; ++g) {
             slots[size_t(g)][size_t(t)] = 100 * t + g + 1;
             sim::event(EV_ENTER, g, t);
-            auto action = [&, g]() {
+            Barrier* b = g < S ? bp : bp2;
+            auto action = [&, g, b]() {
                 sim::event(EV_ACTION, g, sim::rt_tid());
+                (void)b->step();   // an action may look at its own barrier (e.g. pick a buffer by the generation bit)
                 action_count[size_t(g)]++;
                 total_actions++;
                 // the action runs after everybody has arrived: it sees every participant's pre-barrier write
                 for (int u = 0; u < nt; ++u)
                     if (slots[size_t(g)][size_t(u)] != 100 * u + g + 1) sim::rt_cell_add(CELL_ERR, 1);
             };
-            Barrier* b = g < S ? bp : bp2;
             if ((flags[size_t(t)] >> g) & 1) b->wait_yield(action); else b->wait(action);
             sim::event(EV_LEAVE, g, t);
             for (int u = 0; u < nt; ++u)
